@@ -1366,6 +1366,19 @@ VARIANTS += [
 ]
 
 
+VARIANTS += [
+    V('C17-M60', 'M', ('C17',), QU, 'ResponsiveQueue.put', r'timeout, Full\)', 'timeout, Empty)', ('C17-10',), note='seeded C17-r8m1 shape'),
+    V('C10-M60', 'M', ('C10',), TE, 'Fork.__next__', r'except StopIteration:\n(\s+)# `instream` is exhausted', r'except (StopIteration, RuntimeError):\n\1# `instream` is exhausted', ('C10-11',), note='seeded C10-r8m1 shape'),
+    V('C13-M60', 'M', ('C13',), SP, 'Server.create', r'return self\._make_proxy\(typeid, proxytype, ident, tuple\(exposed\)\)', 'try:\n            return self._make_proxy(typeid, proxytype, ident, tuple(exposed))\n        except Exception:\n            self.id_to_obj.pop(ident, None)\n            raise', ('C13-4',), note='seeded C13-r8m1 shape'),
+    V('C12-M60', 'M', ('C12',), CX, 'SpawnProcess._collect_result', r'(result, error = None, None\n)(\s+)', r'\1\2multiprocessing.connection.wait([self.sentinel])\n\2', ('C12-14',), note='seeded C12-r8m1 shape'),
+    V('C12-M61', 'M', ('C12',), CX, 'SpawnProcess._collect_result', r'while self\.exitcode is None:\n\s+time\.sleep\(0\.001\)\n', 'multiprocessing.connection.wait([self.sentinel])\n', ('C12-15',), note='C12-r8m2 shape (not kept as a seed: it fails test_terminate under load)'),
+    V('C05-M60', 'M', ('C05', 'C03'), ST, 'Mapper.__iter__', r'func = self\.func\n\s+for v in self\._instream:\n\s+yield func\(v\)', 'return map(self.func, self._instream)', ('C05-13', 'C03-2'), note='seeded C05-r8m1 shape'),
+    V('C01-M60', 'M', ('C01',), ST, 'fifo_stream', r'(y = fut\.result\(\)\n(\s+))except Exception as e:', r'\1except concurrent.futures.CancelledError:\n\2    raise\n\2except Exception as e:', ('C01-3',), note='seeded C01-r8m1 shape'),
+    V('C01-E60', 'E', ('C01', 'C05', 'C16'), ST, 'fifo_stream', r'(y = fut\.result\(\)\n(\s+))except Exception as e:', r'\1except KeyboardInterrupt:\n\2    raise\n\2except Exception as e:', note='an event of the consumer re-raised in front of the outcome handler'),
+    V('C08-M60', 'M', ('C08',), SA, 'AsyncParmapper.__aiter__', r'fut = executor\.submit\(self\._func, x, \*\*kwargs\)\n(\s+)return loop\.run_in_executor\(None, fut\.result\)', r'return loop.run_in_executor(None, functools.partial(self._func, x, **kwargs))', ('C08-3',), note='seeded C08-r8m1 shape'),
+]
+
+
 # ---------------------------------------------------------------------- every local that is not a parameter renamed (and, second family, a statement added so that the function is not the recorded one up to renaming)
 def _rename_locals(pad):
     def f(m):
